@@ -7,6 +7,9 @@ import (
 	"sync"
 	"sync/atomic"
 	rt "time"
+	"unsafe"
+
+	"github.com/fufuok/cache/internal/vshim/sched"
 )
 
 type (
@@ -47,11 +50,19 @@ var (
 	virtual atomic.Bool
 	vnow    atomic.Int64
 	capture atomic.Bool
+	// shared: the virtual clock is advanced by a scheduled thread, so reading and advancing it are
+	// scheduling points (a load / a store of the clock word) of the controlled scheduler
+	shared atomic.Bool
 )
+
+func clockAddr() uintptr { return uintptr(unsafe.Pointer(&vnow)) }
 
 // Now returns the virtual instant when the virtual clock is on.
 func Now() Time {
 	if virtual.Load() {
+		if shared.Load() {
+			sched.Point(sched.KLoad, clockAddr())
+		}
 		return rt.Unix(0, vnow.Load())
 	}
 	return rt.Now()
@@ -129,11 +140,20 @@ func (t *Timer) Reset(d Duration) bool {
 
 // ---- virtual clock control (harness side) ----
 
-func VEnable(startNs int64) { vnow.Store(startNs); virtual.Store(true) }
+func VEnable(startNs int64) { vnow.Store(startNs); virtual.Store(true); shared.Store(false) }
 func VDisable()             { virtual.Store(false) }
 func VNow() int64           { return vnow.Load() }
 func VSet(ns int64)         { vnow.Store(ns) }
 func VAdvance(d Duration)   { vnow.Add(int64(d)) }
+
+// VShared switches the scheduling points of the clock on or off.
+func VShared(on bool) { shared.Store(on) }
+
+// VAdvanceShared advances the clock as an operation of the calling scheduled thread.
+func VAdvanceShared(d Duration) {
+	sched.Point(sched.KStore, clockAddr())
+	vnow.Add(int64(d))
+}
 
 // ---- tickers ----
 
